@@ -781,9 +781,9 @@ def check_grow(ctx, prog, g, r):
                 if x.kind == 'call' and x.callee_name() not in ('rev', 'into_iter') and any(y is rng for y in walk(x)):
                     problems.append('index range is passed through %s before extending the free list' % x.callee_name())
     if problems:
-        ctx.add('POOL', g, 'grow-range', 'violation', '; '.join(problems), PROPS_POOL, line)
+        ctx.add('POOL', g, 'grow-range', 'violation', '; '.join(problems), PROPS_POOL + ['C10'], line)      # free indices the arena does not have are out-of-bounds accesses
     else:
-        ctx.add('POOL', g, 'grow-range', 'ok', 'buffer grows by `length` default nodes and the free list by exactly old_len..old_len+length', PROPS_POOL, line)
+        ctx.add('POOL', g, 'grow-range', 'ok', 'buffer grows by `length` default nodes and the free list by exactly old_len..old_len+length', PROPS_POOL + ['C10'], line)
 
 
 def check_clear(ctx, prog, c, r, store_field):
